@@ -1,5 +1,5 @@
 """C07 -- VRH averages, bounds and velocities are those of the full tensor in SI units."""
-import importlib, itertools, re, types
+import importlib, itertools, os, re, types
 import numpy
 import z3
 from vf import core, smt, symnp
@@ -302,6 +302,30 @@ def run(s):
     s.oblige("C07.constants", lambda: constants(cal), ["cij.util.units", "scipy.constants"], kind="finite")
     # ---------------- 5. bounded: S = C^-1, definitions and Reuss <= Hill <= Voigt on random SPD tensors (real numpy)
     bounded_spd(s, cal)
+    # density = cell mass / (N_A V): the cell mass is the third number of the static table's header, in whatever legitimate spelling it is written
+    def cell_mass():
+        import tempfile, shutil
+        ed = importlib.import_module("cij.io.traditional.elast_dat")
+        tmp = tempfile.mkdtemp(prefix="c07m_")
+        try:
+            for tok in ("803.104", "803", "8.03104E+02", "8.03104e2", "8.03104E02", "0.803104E+03", "80310.4E-2", "+803.104"):
+                for vtok in ("560.0", "5.6E+02"):
+                    p = os.path.join(tmp, "elast.dat")
+                    with open(p, "w") as fp:
+                        fp.write("title\n%s 2 %s\nV c11 c12 c44\n560.0 300.0 100.0 80.0\n520.0 330.0 120.0 90.0\n" % (vtok, tok))
+                    d = ed.read_elast_data(p)
+                    if d.cellmass != float(tok) or d.vref != float(vtok) or d.nv != 2:
+                        return core.refuted("finite", "header `%s 2 %s`: cell mass read as %r, reference volume %r" % (vtok, tok, d.cellmass, d.vref), witness_id="cellmass:" + tok,
+                                            replay={"reproduced": True, "header": "%s 2 %s" % (vtok, tok)})
+        finally:
+            shutil.rmtree(tmp, ignore_errors=True)
+        return core.proved("finite", "16 spellings of the header numbers (plain, integer, exponent notation, explicit sign): the cell mass and reference volume are float(token)")
+    s.oblige("C07.cell_mass_as_tabulated", cell_mass, ["elast_dat.read_elast_data"], kind="finite")
+
+    # the quantities of this property are DELIVERED through the writer rules (keyword -> quantity, file name, unit; a data file): C15's registry and writer-path obligations
+    # are registered here as well
+    from props import C15
+    C15.run(core.SubSession(s, lambda n: n.replace("C15.", "C07.delivery."), lambda n: n in ("C15.registry", "C15.writer_paths")))
     s.min_obligations = 14
 
 
